@@ -21,7 +21,7 @@
 From Coq Require Import List.
 From DL Require Import Lib.Bytes Lib.F64 Lua.Syntax Lua.Sem Model.Evaluator Model.DefaultRules
   Lua.EvalSpec Lua.EvalSpec2 Proof.DefaultRulesSem Proof.DefaultRulesSoundBlock Proof.DefaultRulesSoundExpr
-  Proof.DefaultRulesSoundCond.
+  Proof.DefaultRulesSoundCond Proof.DefaultRulesSoundFuel.
 Import ListNotations.
 Open Scope N_scope.
 
@@ -322,6 +322,29 @@ Check C01_empty_do_sound_partial : forall d n rho va rest last s r,
   exec_stmts d n rho va (SDo (Block [] None) :: rest) last s = r -> r <> Fuel ->
   exists n', exec_stmts d n' rho va rest last s = r.
 
+(** at any position, and for the rule's whole pass over a block, GIVEN fuel monotonicity of the
+    reference interpreter ([stmts_fuel_mono d]: a successful run of a statement list stays the
+    same run with more fuel; a property of Lua/Sem.v alone, proved in another work stream) *)
+Theorem C01_empty_do_filter_sound : forall d, stmts_fuel_mono d ->
+  forall ss n rho va last s r s',
+  exec_stmts d n rho va ss last s = Ok r s' ->
+  exec_stmts d n rho va (filter (fun st => negb (empty_do st)) ss) last s = Ok r s'.
+Proof. exact empty_do_filter_sound. Qed.
+Print Assumptions C01_empty_do_filter_sound.
+Check C01_empty_do_filter_sound : forall d, stmts_fuel_mono d ->
+  forall ss n rho va last s r s',
+  exec_stmts d n rho va ss last s = Ok r s' ->
+  exec_stmts d n rho va (filter (fun st => negb (empty_do st)) ss) last s = Ok r s'.
+
+Theorem C01_empty_do_block_sound : forall d, stmts_fuel_mono d ->
+  forall b n rho va s r s',
+  exec_block d n rho va b s = Ok r s' -> exec_block d n rho va (rw_empty_do b) s = Ok r s'.
+Proof. exact empty_do_block_sound. Qed.
+Print Assumptions C01_empty_do_block_sound.
+Check C01_empty_do_block_sound : forall d, stmts_fuel_mono d ->
+  forall b n rho va s r s',
+  exec_block d n rho va b s = Ok r s' -> exec_block d n rho va (rw_empty_do b) s = Ok r s'.
+
 (** ** remove_nil_declaration (PARTIAL: every variable initialised by a literal [nil]; the
     general case permutes the fresh cells) *)
 Theorem C01_nil_decl_partial : forall d xs n rho va s r s',
@@ -334,6 +357,25 @@ Check C01_nil_decl_partial : forall d xs n rho va s r s',
   xs <> [] -> names_distinct (map param_name xs) = true ->
   exec_stmt d n rho va (SLocal false xs (repeat ENil (List.length xs))) s = Ok r s' ->
   exec_stmt d n rho va (rw_nil_declaration (SLocal false xs (repeat ENil (List.length xs)))) s = Ok r s'.
+
+(** as many values as variables, every literal [nil] behind the other values
+    ([local a, b, c = e, nil, nil] becomes [local a, b, c = e], the last value parenthesised
+    when it may yield several): the variables keep their order, same environment and store.
+    GIVEN fuel monotonicity of [eval1] and [eval_list] (see above). *)
+Theorem C01_nil_decl_trailing_sound : forall d, eval1_fuel_mono d -> eval_list_fuel_mono d ->
+  forall xs es k n rho va s r s',
+  (1 <= k)%nat -> List.length xs = (List.length es + k)%nat ->
+  forallb (fun e => negb (is_nil e)) es = true -> names_distinct (map param_name xs) = true ->
+  exec_stmt d n rho va (SLocal false xs (es ++ repeat ENil k)) s = Ok r s' ->
+  exists n', exec_stmt d n' rho va (rw_nil_declaration (SLocal false xs (es ++ repeat ENil k))) s = Ok r s'.
+Proof. exact nil_decl_trailing_sound. Qed.
+Print Assumptions C01_nil_decl_trailing_sound.
+Check C01_nil_decl_trailing_sound : forall d, eval1_fuel_mono d -> eval_list_fuel_mono d ->
+  forall xs es k n rho va s r s',
+  (1 <= k)%nat -> List.length xs = (List.length es + k)%nat ->
+  forallb (fun e => negb (is_nil e)) es = true -> names_distinct (map param_name xs) = true ->
+  exec_stmt d n rho va (SLocal false xs (es ++ repeat ENil k)) s = Ok r s' ->
+  exists n', exec_stmt d n' rho va (rw_nil_declaration (SLocal false xs (es ++ repeat ENil k))) s = Ok r s'.
 
 Theorem C01_nil_decl_single_sound : forall d n rho va x s r s',
   exec_stmt d n rho va (SLocal false [x] [ENil]) s = Ok r s' ->
